@@ -29,6 +29,8 @@ pub struct Trace {
     pub events: Vec<Event>,
     /// user-code call indices at which the call panics (fault plan)
     pub faults: Vec<u64>,
+    /// the n-th invocation of the eviction callback panics after being recorded (0 = never)
+    pub cb_panic_at: u64,
     /// probe every ident with peek/contains after every event
     pub probe_all: bool,
     /// differential second execution
@@ -104,6 +106,7 @@ impl Trace {
             "events": self.events.iter().map(|e| e.to_json()).collect::<Vec<_>>(),
             "faults": self.faults,
             "probe_all": self.probe_all,
+            "callback_panic_at": self.cb_panic_at,
         });
         if let Some(b) = &self.env_b {
             v["env_b"] = json!({
@@ -184,6 +187,7 @@ impl Trace {
                 .map(|a| a.iter().map(|e| e.as_u64().unwrap_or(0)).collect())
                 .unwrap_or_default(),
             probe_all: v.get("probe_all").and_then(|x| x.as_bool()).unwrap_or(false),
+            cb_panic_at: v.get("callback_panic_at").and_then(|x| x.as_u64()).unwrap_or(0),
             env_b,
         })
     }
